@@ -51,7 +51,7 @@ _PLACE = dict(
                 ("refused", "result == False"),
                 ("and-nothing-changes", "len(self.bar) == old_len and list_prefix_same(self.bar, old_bar, old_len) and "
                                         "self.current_beat == old_beat and self.length == old_length")])],
-    modifies=["param:self", "param:self.bar"], battery="bar_place")
+    modifies=["param:self", "param:self.bar"], battery="bar_place", properties=["C13", "C18"])
 _c("place_notes", params={"self": "Bar", "notes": "None", "duration": "real"},
    variants=[dict(name="container", params={"self": "Bar", "notes": "NoteContainer", "duration": "real"}),
              dict(name="int-value", params={"self": "Bar", "notes": "None", "duration": "int"}),
@@ -93,7 +93,7 @@ _c("remove_last_entry",
             ("current-beat-goes-back-by-its-length", "feq(self.current_beat, old_beat - 1 / last_value)"),
             ("returns-the-current-beat", "result == self.current_beat")],
    raises={"IndexError": "len(self.bar) == 0"},
-   modifies=["param:self"], battery="bars_filled")
+   modifies=["param:self"], battery="bars_filled", properties=["C13", "C18"])
 
 # lifting to a bar: the operation reaches the container of every sounding entry exactly once, in order; rests are skipped
 NC = "mingus.containers.note_container.NoteContainer."
